@@ -1209,6 +1209,10 @@ class RouteBuilderValidator(Validator[list[Any]]):
         # Parse prefix if present (for INET-family routes)
         if self.schema.prefix_parser:
             ipmask = self.schema.prefix_parser(tokeniser)
+            if self.afi is not None and ipmask.afi != self.afi:
+                # 'announce ipv4 unicast 2001:db8::/64': the octets of the prefix were sent under the AFI of the
+                # command, a length of 64 in an IPv4 NLRI
+                raise ValueError(f"'{ipmask}' is not an {self.afi} prefix")
             settings.cidr = CIDR.create_cidr(ipmask.pack_ip(), ipmask.mask)
             settings.afi = self.afi
             settings.safi = self.safi
